@@ -44,3 +44,16 @@ End C05.
 
 Print Assumptions C05_inclusion.
 Print Assumptions C05_scan_is_argmax.
+
+(** exact rationals: remaining actions whose successors' reported expected rewards differ by more than
+    1e-6 are never confused by the final scans (rounding to 6 digits moves a value by at most 5e-7):
+    the Player 1 scan does not list the worse one, the Player 2 scan does not list the better one *)
+From Coq Require Import QArith.
+From CR Require Import Proofs.RoundQ.
+Theorem C05_separated_rewards : forall (raw : list (string * Q)) a1 x1 a2 x2 m0,
+  In (a1, x1) raw -> In (a2, x2) raw -> (x1 - x2 > 1 # 1000000)%Q ->
+  let vals := map (fun ax => (fst ax, qround6 (snd ax))) raw in
+  Num.eqb qops (qround6 x2) (vmax qops m0 vals) = false /\
+  Num.eqb qops (qround6 x1) (vmin qops m0 vals) = false.
+Proof. exact scan_separated. Qed.
+Print Assumptions C05_separated_rewards.
